@@ -9,7 +9,8 @@ import ast
 REGISTRY = {}  # (relpath, qualname) -> Contract
 SPECS = {}  # name -> SpecFn
 FIELD_TYPES = {}  # field name -> type string   (data-structure typing assumptions)
-AXIOMS = []  # (name, expr-string, params) global axioms over spec functions (listed as assumptions)
+AXIOMS = []
+AXIOM_CHECKS = {}  # (name, expr-string, params) global axioms over spec functions (listed as assumptions)
 UNINTERPRETED = {}  # name -> (arity, result kind)
 
 
@@ -32,10 +33,13 @@ def uninterpreted(name, arity, result="val"):
     UNINTERPRETED[name] = (arity, result)
 
 
-def axiom(name, src):
-    """Global axiom: 'lambda x, y: <bool expr>' universally quantified over Val; ASSUMED."""
+def axiom(name, src, types=None, check=None):
+    """Global axiom: 'lambda x, y: <bool expr>' universally quantified (params typed by `types`); ASSUMED by the
+    prover, and CHECKED against CPython by selftest/axioms.py when `check` (a python predicate source) is given."""
     lam = ast.parse(src.strip(), mode="eval").body
+    lam._types = types or {}
     AXIOMS.append((name, lam, src))
+    AXIOM_CHECKS[name] = check
 
 
 def fields(**kw):
